@@ -131,7 +131,8 @@ func VPH_C04_rr() {
 // VPH_C04_ring: for concrete weight vectors the real ring holds exactly slots[i] entries per
 // target, no nil entry, zero-weight targets absent (ring filling executed concretely).
 func VPH_C04_ring() {
-	vectors := [][]float64{{0.5, 0.5, 0}, {0.1, 0, 0}, {0.0003, 0.0002, 0}, {0.7, 0.7, 0.1}, {0.25, 0.25, 0.5}, {1, 0, 0}}
+	vectors := [][]float64{{0.5, 0.5, 0}, {0.1, 0, 0}, {0.0003, 0.0002, 0}, {0.7, 0.7, 0.1}, {0.25, 0.25, 0.5}, {1, 0, 0},
+		{0.99995, 0, 0}, {0.9999, 0.00005, 0}, {0.99999, 0.000005, 0}} // remainders / weights below one slot
 	ws := vectors[vp.Choice("vector", len(vectors))]
 	for k := range vectors { // one path per vector
 		if ws[0] == vectors[k][0] && ws[1] == vectors[k][1] && ws[2] == vectors[k][2] {
